@@ -78,7 +78,7 @@ func runC02(run *Run, replay string) {
 			if why := badRange(s.W, rr); why != "" {
 				qn := strings.SplitN(q.Name, "(", 2)[0]
 				key := fmt.Sprintf("C02/%s/%s/%s", strings.SplitN(why, ":", 2)[0], qn, strings.ReplaceAll(rr.What, " ", "-"))
-				if !strings.HasPrefix(why, "wrong-file") && parserRangesCached(s, rr.Path)[rr.Rng] {
+				if !strings.HasPrefix(why, "wrong-file") && (parserRangesCached(s, rr.Path)[rr.Rng] || derivedFromMalformedParserRange(parserRangesCached(s, rr.Path), rr.Rng)) {
 					// copied verbatim from the HCL parser's (recovered) syntax tree
 					key = "C02/parser-supplied-range-malformed"
 				} else if strings.HasSuffix(rr.Rng.Filename, ".json") && jsonLineHasEscape(p, rr.Rng) {
@@ -244,4 +244,20 @@ func lcTableCached(src []byte) map[int]hcl.Pos {
 	t := lcTable(src)
 	lcTblCache[k] = t
 	return t
+}
+
+// derivedFromMalformedParserRange: the range ends at the zero position (0,0@0) that the parser hands out as the end of
+// an expression left open at the end of the file, and starts at or after that expression's start (an edit range
+// computed from the expression's range by moving its start to the cursor keeps the parser's end)
+func derivedFromMalformedParserRange(parser map[hcl.Range]bool, r hcl.Range) bool {
+	zero := hcl.Pos{}
+	if r.End != zero {
+		return false
+	}
+	for pr := range parser {
+		if pr.Filename == r.Filename && pr.End == zero && pr.Start.Byte > 0 {
+			return true
+		}
+	}
+	return false
 }
